@@ -15,4 +15,6 @@ def run(ctx):
     D.lamps(ctx)
     D.dm22_layout(ctx)
     D.reg_key(ctx)
+    ctx.rule("R-SUBSCRIBE-HOOK", "Dm1.subscribe leaves this object's receive hook registered with its CA (per-object state)", floor=2)
+    D.subscribe_once(ctx)
     return "bit layouts of DTC/DM1/DM22 against the J1939-73 tables and registration/deregistration key agreement"
